@@ -37,9 +37,50 @@ func modeOf(c *Contract) Mode {
 }
 
 // verifyFunction generates all obligations of fn against its contract.
+// verifyFunction generates all obligations of fn against its contract. With "option cases=PARAM:LO:HI" the
+// function is verified once per constant value of the integer parameter PARAM (everything that depends on
+// it becomes literal); obligation names carry the case.
 func (P *Prog) verifyFunction(fn *ssa.Function, con *Contract) *FuncResult {
+	cs := con.Options["cases"]
+	if cs == "" {
+		return P.verifyFunctionCase(fn, con, "", 0)
+	}
+	parts := strings.Split(cs, ":")
+	var lo, hi int64
+	if len(parts) != 3 {
+		r := &FuncResult{Name: shortFuncName(fn), Contract: con}
+		r.Errors = append(r.Errors, "option cases=PARAM:LO:HI malformed")
+		return r
+	}
+	fmt.Sscan(parts[1], &lo)
+	fmt.Sscan(parts[2], &hi)
+	var all *FuncResult
+	for k := lo; k <= hi; k++ {
+		r := P.verifyFunctionCase(fn, con, parts[0], k)
+		if all == nil {
+			all = r
+			continue
+		}
+		all.Obls = append(all.Obls, r.Obls...)
+		all.Vacuity = append(all.Vacuity, r.Vacuity...)
+		all.Errors = dedupe(append(all.Errors, r.Errors...))
+		for kk, v := range r.Havoc {
+			all.Havoc[kk] += v
+		}
+		for kk, v := range r.Notes {
+			all.Notes[kk] += v
+		}
+	}
+	return all
+}
+
+func (P *Prog) verifyFunctionCase(fn *ssa.Function, con *Contract, caseParam string, caseValue int64) *FuncResult {
 	mode := modeOf(con)
 	vc := newVC(P, fn, mode)
+	if caseParam != "" {
+		vc.caseParam, vc.caseValue = caseParam, caseValue
+		vc.caseTag = fmt.Sprintf("[%s=%d]", caseParam, caseValue)
+	}
 	vc.mathInts = con.opt("mathints")
 	for _, n := range strings.Split(con.Options["reveal"], ",") {
 		if n != "" {
@@ -77,6 +118,11 @@ func (P *Prog) verifyFunction(fn *ssa.Function, con *Contract) *FuncResult {
 	names := map[string]SVal{}
 	for _, p := range fn.Params {
 		v := vc.paramVal(st, p.Name(), p.Type())
+		if vc.caseParam == p.Name() {
+			if bits, _, ok := intInfo(p.Type()); ok {
+				v = Val{T: vc.intConst(newBig(vc.caseValue), bits)}
+			}
+		}
 		fr.args = append(fr.args, v)
 		names[p.Name()] = vc.sval(v, p.Type())
 	}
@@ -105,12 +151,14 @@ func (P *Prog) verifyFunction(fn *ssa.Function, con *Contract) *FuncResult {
 	}
 	entry := st.clone()
 	env := &SpecEnv{vc: vc, fr: nil, st: st, old: entry, names: names, oldNames: names, pkg: pkg, ssaPkg: vc.pkg}
+	env.pol = 1
 	for _, r := range con.Requires {
 		t := vc.evalSpecBool(env, r)
 		vc.assume(st, t)
 	}
+	env.pol = 0
 	// vacuity: the precondition must be satisfiable
-	res.Vacuity = append(res.Vacuity, &Obligation{Name: res.Name + "#vacuity.pre", Kind: "vacuity", Func: res.Name, Prefix: len(vc.out), Reach: tTrue, Goal: tFalse, Expect: "sat", Src: "precondition is satisfiable"})
+	res.Vacuity = append(res.Vacuity, &Obligation{vc: vc, Name: res.Name + "#vacuity.pre" + vc.caseTag, Kind: "vacuity", Func: res.Name, Prefix: len(vc.out), Reach: tTrue, Goal: tFalse, Expect: "sat", Src: "precondition is satisfiable"})
 	if con.opt("trusted") {
 		return res
 	}
@@ -148,7 +196,7 @@ func (P *Prog) verifyFunction(fn *ssa.Function, con *Contract) *FuncResult {
 	}
 	exit, rets := vc.runBody(fr, st)
 	// cover: some exit is reachable
-	res.Vacuity = append(res.Vacuity, &Obligation{Name: res.Name + "#vacuity.exit", Kind: "vacuity", Func: res.Name, Prefix: len(vc.out), Reach: exit.reach, Goal: tFalse, Expect: "sat", Src: "a normal return is reachable"})
+	res.Vacuity = append(res.Vacuity, &Obligation{vc: vc, Name: res.Name + "#vacuity.exit" + vc.caseTag, Kind: "vacuity", Func: res.Name, Prefix: len(vc.out), Reach: exit.reach, Goal: tFalse, Expect: "sat", Src: "a normal return is reachable"})
 	// postconditions
 	post := &SpecEnv{vc: vc, st: exit, old: fr.entrySt0(), names: map[string]SVal{}, oldNames: names, pkg: pkg, ssaPkg: vc.pkg}
 	for k, v := range names {
@@ -174,7 +222,7 @@ func (P *Prog) verifyFunction(fn *ssa.Function, con *Contract) *FuncResult {
 		if e.Expr.Op == "bin" && e.Expr.Name == "==>" && !strings.Contains(lbl, "!slow") {
 			n0 := len(vc.out)
 			ant := vc.evalSpecBool(post, &Clause{Consts: e.Consts, Label: e.Label, Src: e.Src, Expr: e.Expr.Args[0], File: e.File, Line: e.Line})
-			res.Vacuity = append(res.Vacuity, &Obligation{Name: res.Name + "#vacuity.post@" + lbl, Kind: "vacuity", Func: res.Name, Prefix: len(vc.out), Reach: tAnd(exit.reach, ant), Goal: tFalse, Expect: "sat", Src: "antecedent of [" + lbl + "] is reachable"})
+			res.Vacuity = append(res.Vacuity, &Obligation{vc: vc, Name: res.Name + "#vacuity.post@" + lbl + vc.caseTag, Kind: "vacuity", Func: res.Name, Prefix: len(vc.out), Reach: tAnd(exit.reach, ant), Goal: tFalse, Expect: "sat", Src: "antecedent of [" + lbl + "] is reachable"})
 			_ = n0
 		}
 		// postconditions are independent obligations: do not assume earlier ones for later ones
